@@ -834,6 +834,7 @@ impl Runner {
                     Err(e) => format!("setup-failed {}", e.replace(' ', "_")),
                 };
                 self.cfg = Some(cfg);
+                self.oracle = Oracle::default(); // a (re)configuration starts from empty stores
                 self.s.op(line, &out);
                 None
             }
